@@ -49,7 +49,7 @@ theorem compareFilter_noInternal {c : Ctx} {o : Obj} {t : DateTrack} {a : TAttr}
         exact NoInternal.pure _
       · simp [ierr] at hg
     -- Cryptographic Length
-    · obtain ⟨s, rfl, _⟩ := ha.int_of (by decide)
+    · obtain ⟨s, rfl⟩ := ha.int_of (by decide)
       simp only at hg
       split at hg
       · simp only [pure, Except.pure, Except.ok.injEq, Option.map_eq_some_iff] at hg
@@ -69,13 +69,10 @@ theorem compareFilter_noInternal {c : Ctx} {o : Obj} {t : DateTrack} {a : TAttr}
       simp only [pure, Except.pure, Except.ok.injEq, Option.some.injEq] at hg; subst hg
       exact NoInternal.pure _
     -- Cryptographic Usage Mask
-    · obtain ⟨s, rfl, hs⟩ := ha.int_of (by decide)
+    · obtain ⟨s, rfl⟩ := ha.int_of (by decide)
       simp only at hg
       split at hg
       · simp only [pure, Except.pure, Except.ok.injEq, Option.some.injEq] at hg; subst hg
-        have : ¬ s < 0 := by omega
-        unfold compareFilter
-        simp only [show matchKinds.lookup "Cryptographic Usage Mask" = some MatchKind.mask by decide, this, if_false]
         exact NoInternal.pure _
       · simp [ierr] at hg
     -- State
